@@ -169,6 +169,22 @@ fn syntax_devs_inner(literals: bool, ints: bool, attrs: bool, docs: bool) -> Vec
             s.syntax.push("block-docs".to_string());
             true
         }));
+        // the documentation lines placed after (or split around) the variant's other attributes (seed C14-w: only the
+        // leading run of doc attributes was collected)
+        d.push(dev("syntax: docs-after-attrs", &["syndocpos"], |s| {
+            if !s.variants.iter().any(|v| !v.docs.is_empty()) {
+                return false;
+            }
+            s.syntax.push("docs-after-attrs".to_string());
+            true
+        }));
+        d.push(dev("syntax: docs-split", &["syndocpos"], |s| {
+            if !s.variants.iter().any(|v| v.docs.len() >= 2) {
+                return false;
+            }
+            s.syntax.push("docs-split".to_string());
+            true
+        }));
     }
     d
 }
